@@ -253,6 +253,71 @@ func c07Compare(c *vk.Ctx, key string, a *app.App, cfg app.Config, hist []string
 			}
 			c.Sample(map[string]interface{}{"key": key, "config": cfg, "app": a.Describe(), "history": hist, "long_lived_transcript": tr})
 		}
+		// engine.Loop as the driver: the whole history through one Loop call, and one Loop call per request with a
+		// persister (dev/interactive); the client must see what it sees when Exec/Flush/Finish are called by hand
+		loopable := true
+		for _, in := range hist[:len(ref)] {
+			if strings.ContainsAny(in, "\n\r") || in != strings.TrimSpace(in) || len(in) > 4000 {
+				loopable = false // Loop reads lines and trims them: such inputs cannot be sent through it unchanged
+			}
+		}
+		if loopable && !cfg.Debug {
+			want := ""
+			for _, o := range ref {
+				if o.ExecErr != "" || o.FlushErr != "" {
+					break
+				}
+				if o.Out != "" {
+					want += o.Out + "\n"
+				}
+			}
+			got, lerr, lpan := app.LoopWhole(a, cfg, hist[:len(ref)])
+			c.Count("histories_through_engine_loop", 1)
+			last := ref[len(ref)-1]
+			if lpan == "" && last.Panic == "" && (got != want || (lerr != "") != (last.ExecErr != "" || last.FlushErr != "")) {
+				violate("loop-differs:whole-history", fmt.Sprintf("the history through one engine.Loop call writes %q (error %q); Exec/Flush by hand: %q (last request %s)", got, lerr, want, last.Brief()), key,
+					map[string]interface{}{"config": cfg, "app": a.Describe(), "history": hist[:len(ref)]})
+			}
+			// one Loop call per request over a store; afterwards the stored session equals that of the per-request driver
+			bl, err1 := app.NewBackend("mem")
+			bp, err2 := app.NewBackend("mem")
+			if err1 == nil && err2 == nil {
+				rl := app.NewRecRes(a)
+				pr := app.NewPerRequest(a, cfg, bp)
+				var lastStored *app.Obs
+				okLoop := true
+				for step, in := range hist[:len(ref)] {
+					o := pr.Request([]byte(in))
+					lastStored = o
+					lo, le, lp := app.LoopRequest(a, cfg, bl, rl, in)
+					c.Count("requests_through_engine_loop", 1)
+					w := ""
+					if o.Out != "" && o.ExecErr == "" && o.FlushErr == "" {
+						w = o.Out + "\n"
+					}
+					if lp != "" || o.Panic != "" {
+						okLoop = false
+						break
+					}
+					if lo != w || (le != "") != (o.ExecErr != "" || o.FlushErr != "") {
+						violate("loop-differs:per-request", fmt.Sprintf("step %d input %q through engine.Loop (new engine and persister, input as the initial one): wrote %q (error %q); Exec/Flush/Finish by hand: %s", step, in, lo, le, o.Brief()), key,
+							map[string]interface{}{"config": cfg, "app": a.Describe(), "history": hist[:step+1]})
+						okLoop = false
+						break
+					}
+				}
+				if okLoop && lastStored != nil && lastStored.StoredErr == "" {
+					prl := app.NewPerRequest(a, cfg, bl)
+					ls, lc, lerr2 := prl.ReadStored()
+					if lerr2 != "" || !ls.Equal(lastStored.StoredState) || !lc.Equal(lastStored.StoredCache) {
+						violate("loop-differs:stored-session", fmt.Sprintf("after the history served by one engine.Loop call per request the stored session is %+v / %+v (load error %q); served by hand: %+v / %+v", ls, lc, lerr2, lastStored.StoredState, lastStored.StoredCache), key,
+							map[string]interface{}{"config": cfg, "app": a.Describe(), "history": hist[:len(ref)]})
+					}
+				}
+				bl.Cleanup()
+				bp.Cleanup()
+			}
+		}
 		for _, bk := range c07Backends {
 			b, err := app.NewBackend(bk)
 			if err != nil {
